@@ -70,12 +70,23 @@ Spec == Init /\ [][Next]_vars
 (* ------------------------------ emission ------------------------------- *)
 Final(us) == FinalOf(us, mode = "shapes")
 AbbrevSec(us) == AbbrevSecOf(us, mode = "shapes")
+\* mode "types": the last unit of the list is the referring compile unit, alone in .debug_info (`cuinfo`); the others are .debug_types
 Case ==
-  LET f == Final(units)   c1 == f[1].ctx IN
+  LET f0 == Final(units)   c1 == f0[1].ctx
+      f == IF mode = "types" THEN SubSeq(f0, 1, Len(f0) - 1) ELSE f0
+      cu == f0[Len(f0)]
+      cuv == UnitView(cu, 0)
+      \* a signature designates the type entry of the unit that carries it: [referring entry, designated unit, designated entry]
+      sigrefs == [i \in 2..3 |-> LET k == CHOOSE k \in 1..Len(f) : f[k].sig = cu.dies[i].attrs[1].v IN
+                                  [from |-> cuv.dies[i].off, unit |-> UnitOffs(f, k), die |-> UnitOffs(f, k) + f[k].typeoff]]
+  IN
   [tag |-> tag, mode |-> mode, le |-> c1.le,
    info |-> InfoBytes(f), abbrev |-> AbbrevSec(units),
    str |-> StrSec, line_str |-> LineStrSec, str_offsets |-> StrOffsetsSec(c1), addr |-> AddrSec(c1), lists |-> ListsSec(c1),
-   units |-> [k \in 1..Len(f) |-> UnitView(f[k], UnitOffs(f, k))]]
+   units |-> [k \in 1..Len(f) |-> UnitView(f[k], UnitOffs(f, k))],
+   cuinfo |-> IF mode = "types" THEN UnitBytes(cu) ELSE <<>>,
+   cu |-> IF mode = "types" THEN <<cuv>> ELSE <<>>,
+   sigrefs |-> IF mode = "types" THEN [i \in 1..2 |-> sigrefs[i + 1]] ELSE <<>>]
 Emit == fin => CSVWrite("%1$s", <<ToJson(Case)>>, IOEnv.OUT)
 
 (* ------------------------------ properties ----------------------------- *)
